@@ -130,7 +130,11 @@ def run(ctx):
     ok, out = ctx.lake_build(["E3nnVerif.Props.C17"])
     ctx.obligation("build:Props.C17", ok, out[-3000:])
     if ok:
-        ctx.audit(["E3nnVerif.Props.C17"])
+        from common import LEAN
+        own = [LEAN / "E3nnVerif" / "Model" / f for f in ("Perm.lean", "Reduce.lean")]
+        own += sorted((LEAN / "E3nnVerif" / "Theory").glob("Perm*.lean")) + sorted((LEAN / "E3nnVerif" / "Theory").glob("Reduce*.lean"))
+        own += [LEAN / "E3nnVerif" / "Theory" / "Closure.lean", LEAN / "E3nnVerif" / "Props" / "C17.lean", LEAN / "drivers" / "C17.lean"]
+        ctx.audit(["E3nnVerif.Props.C17"], files=own)
 
     thorough = ctx.tier == "thorough"
     rng = ctx.rng
@@ -184,6 +188,8 @@ def run(ctx):
                         q[a] = b
                 oracle("to_cycles/reconstruct", len(flat) == len(set(flat)) and tuple(q) == p and all(len(c) >= 2 and c[0] == min(c) for c in cyc),
                        {"call": f"perm.to_cycles({p})", "got": repr(cyc), "expected": "disjoint cycles whose product is p"})
+                # the model's inverse of to_cycles applied to the REAL cycles gives back p
+                S.add("from_cycles", f"from_cycles {n} {enc_set(cyc)}", "ok " + ps, f"from_cycles({n},{sorted(cyc)})", nt)
             else:
                 oracle("to_cycles/raises", False, {"call": f"perm.to_cycles({p})", "got": st, "expected": "cycles"})
             st, sg = call(perm.sign, p, timeout=5)
@@ -381,12 +387,13 @@ def run(ctx):
                 if ra != rb:
                     comp = [ra if c == rb else c for c in comp]
         classes = sorted(set(comp))
-        dmax = DMAX if n <= 3 else (DMAX if thorough else 2)
+        dmax = (5 if thorough else DMAX) if n <= 3 else (DMAX if thorough else 2)
         if n == 4 and len(g) <= 2 and not thorough:
             dmax = 2
         assigns = list(itertools.product(range(0 if n <= 2 else 1, dmax + 1), repeat=len(classes)))
-        if len(assigns) > 40:
-            assigns = rng.sample(assigns, 40)
+        cap = 80 if thorough else 40
+        if len(assigns) > cap:
+            assigns = rng.sample(assigns, cap)
         for assign in assigns:
             cd = dict(zip(classes, assign))
             # give the dimension of ONE index per class (the code propagates it), sometimes of all
@@ -467,7 +474,7 @@ def run(ctx):
         "germinate on all generator subsets for n<=3, for n=4 all subsets of size <=2 (quick) / <=3 (thorough) plus random larger subsets "
         "(2^24 subsets of S_4 are not enumerable; every subgroup of S_4 is 2-generated); germinate_formulas on f0 plus <=2 signed terms "
         "on <=3 (quick; 4 sampled) / <=4 (thorough) indices and random 3-4 term formulas plus malformed strings; reduce_permutation on every "
-        "DISTINCT signed group produced, with dimension assignments per index-orbit up to 3 (quick) / 4 (thorough), partial and full dims, "
+        "DISTINCT signed group produced, with dimension assignments per index-orbit up to 3 (quick; 2 for 4 indices) / 5 (thorough; 4 for 4 indices), partial and full dims, "
         "missing/conflicting/extra dims. non-trivial = n>1 / non-empty generator set."
     )
     ctx.assumptions += [
@@ -481,6 +488,28 @@ def run(ctx):
         "(correspondence-only clauses)",
         "to_cycles on non-permutations: divergence of the real loop is observed through a 50 ms timeout",
     ]
+
+
+# ----------------------------------------------------------------------------------------------
+def replay(ctx, path):
+    """re-run a recorded failing input on the real code: exit 1 if it still fails, 0 if it now behaves"""
+    import json
+    import torch
+    from e3nn.math import perm
+
+    rec = json.loads(open(path).read())
+    key = rec.get("key", "")
+    print(f"replaying {key}: {rec.get('call')}")
+    if key == "standard_representation/dtype-not-forwarded":
+        other = torch.float64 if torch.get_default_dtype() != torch.float64 else torch.float32
+        st, R = call(perm.standard_representation, (1, 0, 2), dtype=other)
+        bad = not (st == "ok" and R.dtype == other)
+        print("got:", st if st != "ok" else R.dtype, "| expected: ok", other)
+        return 1 if bad else 0
+    # generic: the replay file holds the python call and the expected / observed values
+    print(json.dumps(rec, indent=1)[:4000])
+    print("no automatic re-execution for this key; run ./check C17 to re-evaluate all oracles")
+    return 2
 
 
 # ----------------------------------------------------------------------------------------------
@@ -500,7 +529,7 @@ def compare_rp(torch, out, Q, ret, _unused):
     if not out.startswith("ok "):
         return False
     parts = out[3:].split(" # ")
-    if len(parts) != 4:
+    if len(parts) != 5 or parts[4] != "true":  # last field: DimsCompatible (hypothesis of the theorems) holds
         return False
     dims = dec_t(parts[0])
     nrows = int(parts[1])
